@@ -408,7 +408,7 @@ def correspond(res, n, deep):
             r['requested'] = box['found'][r['job']]['sched']
         records = out2['records'] + records
     terms = [to_coq(r) for r in records]
-    codes, _ = core.coq_eval('C16', HEADER, core.chunks(terms, 200))
+    codes, _ = core.coq_eval('C16', HEADER, core.chunks(terms, 200), timeout=600 if res.tier == 'quick' else 2400)
     classify(res, records, codes)
     keys = {rec_key(r) for r in records if nontrivial(r)}
     ends, kinds, hist = {}, {}, {}
